@@ -619,7 +619,8 @@ def unpackQuestion (msg : Bytes) (off : Nat) : Except Err (Question × Nat) :=
       | .error e => .error e
       | .ok (cls, o3) => .ok ({ name := name, typ := typ, cls := cls }, o3)
 
-/-- `ResourceHeader.unpack`. -/
+/-- `Parser.resourceHeader`: `ResourceHeader.unpack`, then the check that the record body lies inside
+the message (since the rdlength-overrun repair). -/
 def unpackRHeader (msg : Bytes) (off : Nat) : Except Err (RHeader × Nat) :=
   match unpackName msg off with
   | .error e => .error e
@@ -635,7 +636,9 @@ def unpackRHeader (msg : Bytes) (off : Nat) : Except Err (RHeader × Nat) :=
         | .ok (ttl, o4) =>
           match u16At msg o4 with
           | .error e => .error e
-          | .ok (len, o5) => .ok ({ name := name, typ := typ, cls := cls, ttl := ttl, length := len }, o5)
+          | .ok (len, o5) =>
+            if o5 + len > msg.length then .error .resourceLen  -- Parser.resourceHeader: the body must be inside msg
+            else .ok ({ name := name, typ := typ, cls := cls, ttl := ttl, length := len }, o5)
 
 /-- `Parser.resource`. -/
 def unpackResource (msg : Bytes) (off : Nat) : Except Err (Resource × Nat) :=
